@@ -11,6 +11,11 @@
      - an early confirm stays cached until its block arrives, then it is stored with the block (unless it had enough);
      - a received batch leaves every valid transaction pending exactly once;
      - the chain stays linear, the stable block only moves forward and is the highest block with 2 of 3 signers;
+     - a message with several blocks (DeliverBatch) is every block of it handled as if it had arrived alone, in order:
+       whatever of it the chain can take (parent in the chain, possibly since an earlier block of the same message) is in the
+       chain afterwards, the rest waits in the cache, nothing of it is dropped - whichever of its blocks the node held already;
+     - no message of the session (all of them well-formed, about valid blocks) costs the sender its connection: the node
+       never closes the peer's session (peer_dropped);
      - when nothing is in flight and no cached block is insertable, (current, stable) are those of the in-order
        run on a second real node (logged at reset), which is also what the design (Sync.tla) predicts.
    Named deviations (known_findings.txt): Dev_CacheAddMiddle, Dev_TxsLoopVar, Dev_ConfirmLostDuringInsert. *)
@@ -69,7 +74,7 @@ SigRel(e, conf) == \A h \in HasOf(e) :
 NoInsertable(e) == \A b \in Content(SlotsOf(e)) : ~Known(HasOf(e), HeightOf(b) - 1)
 AllDelivered(f) == \A m \in DOMAIN f : f[m] = 0
 Converges(e, f, lst) == (AllDelivered(f) /\ NoInsertable(e) /\ lst = {} /\ stuck' = {}) => e.cur = ref[1] /\ e.stable = ref[2]
-Common(e, f, lst) == ChainOK(e) /\ ApiOK(e) /\ Converges(e, f, lst)
+Common(e, f, lst) == ChainOK(e) /\ ApiOK(e) /\ Converges(e, f, lst) /\ e.peer_dropped = FALSE
 Adopt(e) == /\ has' = HasOf(e) /\ stable' = e.stable /\ sigs' = SigsOf(e) /\ slots' = SlotsOf(e) /\ cc' = e.cc /\ pool' = e.pool
             /\ UNCHANGED <<nb, nt, miners, ref>>
 
@@ -108,6 +113,22 @@ TBlock == /\ Ev("Deliver") /\ E.a[1][1] = "B"
                               /\ IsSuffix(HeightsSeq(SlotsOf(E)), HeightsSeq(dv))
                            /\ UseDev("Dev_CacheAddMiddle")
              /\ Common(E, infl', lost')
+          /\ Adopt(E)
+
+\* ---- one message with several blocks arrives (E.a[1] = their heights in message order)
+RECURSIVE MustHave(_, _, _)
+MustHave(H, bs, i) == IF i > Len(bs) THEN H ELSE MustHave(IF Known(H, bs[i] - 1) THEN H \cup {bs[i]} ELSE H, bs, i + 1)
+TBatch == /\ Ev("DeliverBatch")
+          /\ LET bs == E.a[1]  hs == ToSet(E.a[1])
+                 fresh == {Bid(h) : h \in {x \in ToSet(E.a[1]) : x \notin has /\ x > stable}} IN
+             /\ Len(bs) >= 2 /\ hs \subseteq 1..nb
+             /\ infl' = [m \in DOMAIN infl |-> IF m[1] = "B" /\ m[2] \in hs /\ infl[m] > 0 THEN infl[m] - 1 ELSE infl[m]]
+             /\ UNCHANGED <<seenT, stuck, lost>>
+             /\ E.pool = pool /\ SigRel(E, <<>>) /\ CcRel(E, <<>>)
+             /\ MustHave(has, bs, 1) \subseteq HasOf(E)                                  \* what the chain could take, it has
+             /\ \A h \in HasOf(E) \ has : h \in hs \/ Bid(h) \in Content(slots)         \* and nothing else entered it
+             /\ Kept(E, fresh)                                                          \* the rest waits; nothing dropped
+             /\ Common(E, infl', lost)
           /\ Adopt(E)
 
 \* Dev_ConfirmLostDuringInsert: deputy d's confirm for h was handled while the engine was busy inserting h - the handler did
@@ -177,7 +198,7 @@ TDrain == /\ Ev("TimerDrain") /\ UNCHANGED <<infl, seenT, lost, stuck>>
           /\ Common(E, infl, lost)
           /\ Adopt(E)
 
-TraceNext == TReset \/ TBlock \/ TConfirm \/ TRace \/ TTxs \/ TDuplicate \/ TDrain
+TraceNext == TReset \/ TBlock \/ TBatch \/ TConfirm \/ TRace \/ TTxs \/ TDuplicate \/ TDrain
 TraceSpec == /\ l = 1 /\ nb = 0 /\ nt = 0 /\ miners = <<>> /\ ref = <<0, 0>> /\ infl = <<>> /\ seenT = FALSE /\ lost = {} /\ stuck = {}
              /\ has = {} /\ stable = 0 /\ sigs = <<>> /\ slots = <<>> /\ cc = <<>> /\ pool = <<>>
              /\ [][TraceNext]_mvars
